@@ -259,6 +259,9 @@ class Run(object):
             print("  harness=%s what=%s" % (vj["harness"], vj["what"][:300]))
             print("  case=%s" % json.dumps(vj["case"])[:400])
             out += 1
+        if os.environ.get("VERIF_VERBOSE"):
+            for key, vj in seen_classes.items():
+                print("  CLASS %s | %s | %s" % (key[1], vj["what"][:150], json.dumps(vj["case"])[:300]))
         summary = {k: v for k, v in cov.items() if isinstance(v, (int, float, bool))}
         print("%s tier=%s %s wall=%.1fs violations=%d (classes=%d) known=%d" % (
             self.pid, self.tier, json.dumps(summary, sort_keys=True), time.time() - self.t0,
